@@ -1,10 +1,10 @@
 CONSTANTS
   Chunks <- MCChunks
   Nodes <- MCNodes
-  MaxCalls = 4
+  MaxCalls = 5
   CacheSize = 1
   Emitting <- EmittingOn
-INIT Init
+INIT InitAfterFirstLine
 NEXT Next
 INVARIANT Emit
 CHECK_DEADLOCK FALSE
